@@ -672,3 +672,75 @@ def r9(R):
             R.violation(v.node, v.message, g, v.path)
     R.require(n >= 1, 'no checkCurrentSerialInTransaction implementation '
               'found')
+
+
+# ----------------------------------------------------------------- C03.R10
+@rule('C03.R10', 'a dependency declared with readCurrent() is one that the '
+      'commit will check: the connection has joined the transaction when it '
+      'records it, and the serial it records is that of a loaded object (a '
+      'ghost carries none)', min_instances=1)
+def r10(R):
+    conn = R.prog.cls(CONN)
+    f = R.method(conn, 'readCurrent')
+    g, b, F = R.cfg(f, conn, max_depth=0)
+    ob = [p for p in f.params if p != 'self'][0]
+    seen = [0]
+
+    def edge(node, st, lab, tgt):
+        joined, loaded = st
+        if node.kind == 'test' and lab in ('T', 'F'):
+            for e, truth in implied_atoms(node.ast, lab):
+                if dotted(e) == ('self', '_needs_to_join') and not truth:
+                    joined = True
+                if isinstance(e, ast.Compare) and len(e.ops) == 1 and \
+                        dotted(e.left) == (ob, '_p_changed') and isinstance(
+                            e.comparators[0], ast.Constant) and \
+                        e.comparators[0].value is None:
+                    if isinstance(e.ops[0], ast.IsNot) == truth:
+                        loaded = True
+        if lab in ('e', 'eb'):
+            return (joined, loaded)
+        for op in F.ops(node):
+            if op.kind == 'call' and isinstance(
+                    op.ast.func, ast.Attribute) and \
+                    op.ast.func.attr == 'join' and \
+                    any(isinstance(a, ast.Name) and a.id == 'self'
+                        for a in op.ast.args):
+                joined = True
+            if op.kind == 'call' and op.path and len(op.path) >= 2 and \
+                    op.path[-1] in ('_p_activate', 'setstate') and (
+                        op.path[-2] == ob or any(
+                            isinstance(a, ast.Name) and a.id == ob
+                            for a in op.ast.args)):
+                loaded = True
+        return (joined, loaded)
+
+    def at(node, st):
+        joined, loaded = st
+        for op in F.ops(node):
+            if op.kind == 'setitem' and path_is(op.path,
+                                                ('self', '_readCurrent')):
+                seen[0] += 1
+                if not joined:
+                    return Violation(
+                        'readCurrent records the dependency on a path on '
+                        'which the connection has not joined the '
+                        'transaction: a transaction that writes only '
+                        'through another connection (multi-database), or '
+                        'nothing through this one, commits without the '
+                        'dependency ever being checked')
+                if not loaded:
+                    return Violation(
+                        'readCurrent records the serial of an object that '
+                        'may be a ghost: a never-loaded ghost carries the '
+                        'serial of a new object, nothing is recorded, and '
+                        'the commit succeeds although the object was '
+                        'changed (or un-created) meanwhile')
+        return st
+
+    vs, stats = explore(g, (False, False), at=at, edge=edge)
+    R.count(stats)
+    R.instance('Connection.readCurrent')
+    R.require(seen[0] or vs, 'readCurrent no longer records the dependency')
+    for v in vs:
+        R.violation(v.node, v.message, g, v.path)
